@@ -841,26 +841,32 @@ func runC05R9(c *Ctx, rule string) {
 // defaulting pass in between can lose an explicit false — the zero value — such as insecureSkipNonce: false,
 // which is how nonce checking gets switched off without the operator asking for it.
 func runC05R10(c *Ctx, rule string) {
+	runAlphaMergeVerbatim(c, rule, "Providers", "Providers", "providers-verbatim", "the providers of the structured configuration are rebuilt on their way into the options instead of being taken as written: a pass that re-encodes or defaults them can drop explicit zero values (insecureSkipNonce: false, a disabled code-challenge method)")
+}
+
+// runAlphaMergeVerbatim: MergeInto assigns the structured configuration's field `from` to Options.`to` as a whole
+// (one store of the loaded value), so no member of it is dropped or defaulted on the way.
+func runAlphaMergeVerbatim(c *Ctx, rule, to, from, keyName, badMsg string) {
 	merge := c.Fn(rule, "(*pkg/apis/options.AlphaOptions).MergeInto")
-	toF := c.Field(rule, "pkg/apis/options.Options.Providers")
-	fromF := c.Field(rule, "pkg/apis/options.AlphaOptions.Providers")
+	toF := c.Field(rule, "pkg/apis/options.Options."+to)
+	fromF := c.Field(rule, "pkg/apis/options.AlphaOptions."+from)
 	if merge == nil || toF == nil || fromF == nil {
 		return
 	}
 	n := 0
+	key := keyName + "|" + fnKey(merge)
 	for _, ref := range c.fieldRefs(toF) {
 		if ref.Store == nil || ref.Fn != merge {
 			continue
 		}
 		n++
-		key := "providers-verbatim|" + fnKey(merge)
 		if base, ok := walk.FieldLoadBase(unwrap0(ref.Store.Val), fromF); ok && base == ssa.Value(merge.Params[0]) {
-			c.ok(rule, key, ref.In, "opts.Providers = a.Providers")
+			c.ok(rule, key, ref.In, "opts."+to+" = a."+from)
 		} else {
-			c.R.Bad(rule, key, c.pos(ref.In), "the providers of the structured configuration are rebuilt on their way into the options instead of being taken as written: a pass that re-encodes or defaults them can drop explicit zero values (insecureSkipNonce: false, a disabled code-challenge method)", nil, nil)
+			c.R.Bad(rule, key, c.pos(ref.In), badMsg, nil, nil)
 		}
 	}
 	if n == 0 {
-		c.R.Unknown(rule, "providers-verbatim|none", c.P.Pos(merge.Pos()), "MergeInto does not set Options.Providers")
+		c.R.Bad(rule, key, c.P.Pos(merge.Pos()), "MergeInto does not assign Options."+to+" as a whole: "+badMsg, nil, nil)
 	}
 }
